@@ -212,7 +212,7 @@ Section Refinement.
     let '(s', o') := spec_step (abs h) op in
     is_heap h' /\ abs h' = s' /\ o = o'.
   Proof.
-    intros Hh. destruct op as [k|k| | |k| | |]; cbn [impl_step spec_step].
+    intros Hh. destruct op as [k|k| | |k| | | | |]; cbn [impl_step spec_step].
     - (* add *)
       split; [apply (hc_push_heap L HC); exact Hh|]. split; [|reflexivity].
       unfold abs. rewrite (perm_isort_eq _ _ (hc_push_perm L HC h k)). reflexivity.
@@ -245,6 +245,10 @@ Section Refinement.
       destruct (isort h), h; cbn in *; try reflexivity; discriminate.
     - (* clear *)
       split; [apply is_heap_nil|]. split; reflexivity.
+    - (* str *)
+      split; [exact Hh|]. split; reflexivity.
+    - (* repr *)
+      split; [exact Hh|]. split; reflexivity.
   Qed.
 
   (* every history *)
@@ -293,12 +297,20 @@ End Refinement.
 (* ---------- properties of the specification itself ---------- *)
 Lemma spec_step_sorted s op : sorted s -> sorted (fst (spec_step s op)).
 Proof.
-  intros Hs. destruct op as [k|k| | |k| | |]; cbn; try assumption.
+  intros Hs. destruct op as [k|k| | |k| | | | |]; cbn; try assumption.
   - apply insert_sorted; exact Hs.
   - destruct (memk k s); cbn; [apply remove1_sorted|]; exact Hs.
   - destruct s; cbn; [constructor|]. inversion Hs; assumption.
   - constructor.
 Qed.
+
+(* Observers -- peek_first, contains, size, is_empty, str, repr -- leave the queue as it is: the
+   abstract queue, and the heap array itself. *)
+Lemma spec_observer_unchanged s op : is_observer op = true -> fst (spec_step s op) = s.
+Proof. destruct op; cbn; intros H; try discriminate H; reflexivity. Qed.
+
+Lemma impl_observer_unchanged L h op : is_observer op = true -> fst (impl_step L h op) = h.
+Proof. destruct op; cbn; intros H; try discriminate H; reflexivity. Qed.
 
 (* The popped / peeked element is the minimum of what is pending. *)
 Lemma spec_pop_min s x r :
